@@ -12,6 +12,7 @@ import ChumskyModel.Proofs.Lemmas.Total
 import ChumskyModel.Proofs.Lemmas.Top
 import ChumskyModel.Proofs.Lemmas.Guarded
 import ChumskyModel.Proofs.Lemmas.PrattTotal
+import ChumskyModel.Proofs.Lemmas.PrattTerm
 set_option linter.unusedSimpArgs false
 namespace Chumsky
 
@@ -98,6 +99,25 @@ theorem c20_pratt_failure_leaves_pending_error (fuel : Nat) (env : Env) (m : Mod
     st'.alt.isSome = true :=
   runPratt_fail_alt fuel env m atom ops st st' hm h
 
+/-- **termination of `atom.pratt(ops)`**: if the atom and every operator parser are call-free, well-formed, terminating
+    (`wfTerm`) and consume input when they succeed (`G.prattOk`), then with fuel `d + |input| + 2` (`d` ≥ the depth of those
+    parsers) the Pratt parser returns a result from every position inside the input — every recursion into an operand
+    happens after an operator consumed a token, every iteration of the operator loop consumes one. An operator that can
+    succeed on nothing makes the real `pratt_go` loop; that is the Pratt counterpart of a nullable repetition item. -/
+theorem c20_pratt_terminates (n d : Nat) (env : Env) (m : Mode) (hm : env.memoOn = false) (atom : G) (ops : List PrattOp)
+    (hatom : atom.prattOk = true ∧ atom.depth ≤ d) (hops : ∀ o ∈ ops, o.parser.prattOk = true ∧ o.parser.depth ≤ d)
+    (hn : d + env.toks.length + 2 ≤ n) (st : St) (hs : st.pos ≤ env.toks.length) :
+    runPratt n env m atom ops st ≠ .oof ∧ ∀ w, runPratt n env m atom ops st ≠ .panic w :=
+  runPratt_terminates n d env m hm atom ops hatom hops hn st hs
+
+/-- non-vacuity: the table `x | y` with `+` left/1, `*` right/2, prefix `-`/3, postfix `!`/4 meets the hypotheses with d = 2 -/
+example :
+    let atom : G := .oneOf [120, 121]
+    let ops : List PrattOp := [.infix true 1 (.just [43]), .infix false 2 (.just [42]), .prefix 3 (.just [45]),
+      .postfix 4 (.just [33])]
+    (atom.prattOk = true ∧ atom.depth ≤ 2) ∧ (ops.all fun o => o.parser.prattOk && decide (o.parser.depth ≤ 2)) = true := by
+  decide
+
 /-- the same two facts for recursive expression grammars `recursive(|e| atom.pratt(ops))`, at every grammar position -/
 theorem c20_recursive_pratt_panic_sites (x : XEnv) (n : Nat) (env : Env) (m : Mode) (g : G) (st : St)
     (hm : env.memoOn = false) {w : Nat} (h : runX x n env m g st = .panic w) :
@@ -111,6 +131,7 @@ theorem c20_recursive_pratt_failure_leaves_pending_error (x : XEnv) (n : Nat) (e
 #print axioms c20_unwraps_never_fire
 #print axioms c20_pratt_panic_sites
 #print axioms c20_pratt_failure_leaves_pending_error
+#print axioms c20_pratt_terminates
 #print axioms c20_recursive_pratt_panic_sites
 #print axioms c20_recursive_pratt_failure_leaves_pending_error
 #print axioms c20_failure_leaves_pending_error
